@@ -47,7 +47,7 @@ def mutants(pid):
                     new = code[:mm.start()] + re.sub(pat, rep, code[mm.start():], count=1)
                     if new != code:
                         res.append((f, ln, text.strip()[:90], new + text[len(code):]))
-    random.Random(7).shuffle(res)
+    random.Random(int(os.environ.get("RSEED", "7"))).shuffle(res)
     return res[:PER]
 
 
